@@ -225,6 +225,24 @@ fn merkle_dags(n: usize, merge: bool) -> Cfg {
     cfg(&format!("merkle_reg all DAGs with <= {} nodes, Any{}", n, if merge { "+merge" } else { "" }), n, 1, Disc::Any, merge, vec![cmd(mk::WRITE, 0, 0)], true)
 }
 
+/// one member, add / observed remove only: the skeleton of every or-set scenario, affordable one to two ops deeper
+fn or_tiny(what: &str, n: usize) -> Cfg {
+    cfg(&format!("orswot {} tiny alphabet (add / rm of one member), 3 actors, Fifo+merge n<={}", what, n), n, 3, Disc::Fifo, true, vec![cmd(so::ADD, 0, 0), cmd(so::RM_CONTAINS, 0, 0)], true)
+}
+
+/// one key, three members, three actors: three concurrent writers of one entry and partial key removes (seed C05-6)
+fn map_one_key(what: &str, n: usize, disc: Disc, merge: bool) -> Cfg {
+    cfg(
+        &format!("map_orswot {} tiny alphabet (one key, three members), 3 actors, {:?}{} n<={}", what, disc, if merge { "+merge" } else { "" }, n),
+        n,
+        3,
+        disc,
+        merge,
+        vec![cmd(mo::ADD, 0, 0), cmd(mo::ADD, 0, 1), cmd(mo::ADD, 0, 2), cmd(mo::RM_KEY, 0, 0)],
+        true,
+    )
+}
+
 fn plan_cfg<Y: Plan>(what: &str, q: bool, heavy: bool, disc: Disc, merge: bool) -> Cfg {
     let n = Y::n(q, heavy);
     cfg(&format!("{} {} {:?}{} n<={}", Y::NAME, what, disc, if merge { "+merge" } else { "" }, n), n, Y::ACTORS, disc, merge, Y::alphabet(), q || Y::THOROUGH_SYM)
@@ -251,6 +269,8 @@ pub fn jobs(prop: &str, tier: &str) -> Vec<Box<dyn JobT>> {
             each!([Vc, Gc, Pn, Gs, Lww, Mx, Mn, Mv, Or, MapMv, MapOr, MapMap, Gl, Mk], |Y| job::<Y>(plan_cfg::<Y>("ops", q, false, Disc::Causal, false), Converge { closed_only: false, merge_vs_ops: false }));
             j.push(job::<Li>(no_sym(plan_cfg::<Li>("ops", q, false, Disc::Causal, false)), Converge { closed_only: false, merge_vs_ops: false }));
             j.push(job::<Mk>(merkle_dags(if q { 4 } else { 5 }, false), Converge { closed_only: false, merge_vs_ops: false }));
+            // three actors, one key, five ops: a remove context can hold two actors the entry no longer has (seed C01-5)
+            j.push(job::<MapOr>(cfg("map_orswot ops tiny alphabet (one key), 3 actors, Causal n<=5", 5, 3, Disc::Causal, false, vec![cmd(mo::ADD, 0, 0), cmd(mo::ADD, 0, 1), cmd(mo::RM_KEY, 0, 0)], true), Converge { closed_only: false, merge_vs_ops: false }));
             if !q {
                 each!([Or, MapMv, MapOr], |Y| job::<Y>(deep_cfg::<Y>("ops", 5, Disc::Causal, false), Converge { closed_only: false, merge_vs_ops: false }));
                 j.push(job::<Mv>(cfg("mvreg ops narrow alphabet, 3 actors, Causal n<=6", 6, 3, Disc::Causal, false, Mv::narrow(), false), Converge { closed_only: false, merge_vs_ops: false }));
@@ -283,12 +303,15 @@ pub fn jobs(prop: &str, tier: &str) -> Vec<Box<dyn JobT>> {
             j.push(job::<Mk>(merkle_dags(if q { 4 } else { 5 }, true), Converge { closed_only: false, merge_vs_ops: true }));
             each!([Or, Mv, MapMv, MapOr, MapMap], |Y| job::<Y>(plan_cfg::<Y>("ops+merge", q, true, Disc::Causal, true), Converge { closed_only: false, merge_vs_ops: true }));
             each!([Or, MapMv, MapOr, MapMap], |Y| job::<Y>(plan_cfg::<Y>("ops+merge", q, true, Disc::Fifo, true), Converge { closed_only: false, merge_vs_ops: true }));
+            j.push(job::<Or>(or_tiny("ops+merge", if q { 5 } else { 6 }), Converge { closed_only: false, merge_vs_ops: true }));
+            j.push(job::<MapOr>(map_one_key("ops+merge", if q { 4 } else { 5 }, Disc::Causal, true), Converge { closed_only: false, merge_vs_ops: true }));
             if !q {
                 each!([Or, MapOr, MapMv], |Y| job::<Y>(deep_cfg::<Y>("ops+merge", 5, Disc::Causal, true), Converge { closed_only: false, merge_vs_ops: true }));
             }
         }
         "C04" => {
             j.push(job::<Or>(plan_cfg::<Or>("spec", q, true, Disc::Fifo, true), SpecMatch { cov_everywhere: true, use_cov: true }));
+            j.push(job::<Or>(or_tiny("spec", if q { 5 } else { 6 }), SpecMatch { cov_everywhere: true, use_cov: true }));
             if !q {
                 j.push(job::<Or>(deep_cfg::<Or>("spec", 6, Disc::Fifo, true), SpecMatch { cov_everywhere: true, use_cov: true }));
                 let mut c3 = deep_cfg::<Or>("spec", 5, Disc::Fifo, true);
@@ -301,8 +324,10 @@ pub fn jobs(prop: &str, tier: &str) -> Vec<Box<dyn JobT>> {
         "C05" => {
             each!([MapMv, MapOr, MapMap], |Y| job::<Y>(plan_cfg::<Y>("spec", q, true, Disc::Causal, true), SpecMatch { cov_everywhere: false, use_cov: true }));
             each!([MapMv, MapOr, MapMap], |Y| job::<Y>(plan_cfg::<Y>("spec", q, false, Disc::Fifo, false), SpecMatch { cov_everywhere: true, use_cov: true }));
+            j.push(job::<MapOr>(map_one_key("spec", if q { 4 } else { 5 }, Disc::Causal, true), SpecMatch { cov_everywhere: false, use_cov: true }));
             // merges of replicas that hold pending (overtaking) removes
             each!([MapMv, MapOr, MapMap], |Y| job::<Y>(plan_cfg::<Y>("spec", q, true, Disc::Fifo, true), SpecMatch { cov_everywhere: true, use_cov: true }));
+            j.push(job::<MapOr>(cfg("map_orswot spec tiny alphabet (one key), 3 actors, Causal n<=5", 5, 3, Disc::Causal, false, vec![cmd(mo::ADD, 0, 0), cmd(mo::ADD, 0, 1), cmd(mo::RM_KEY, 0, 0)], true), SpecMatch { cov_everywhere: false, use_cov: true }));
             if !q {
                 each!([MapMv, MapOr], |Y| job::<Y>(deep_cfg::<Y>("spec", 5, Disc::Causal, false), SpecMatch { cov_everywhere: false, use_cov: true }));
             }
@@ -418,6 +443,9 @@ pub fn jobs(prop: &str, tier: &str) -> Vec<Box<dyn JobT>> {
                 let mut c = plan_cfg::<Y>("reset_remove", true, true, Y::DISC, true);
                 // (Orswot gets 4 ops in the quick tier too: two pending removes whose contexts collide need them)
                 c.n = if q { Y::n(true, true).max(3) } else { 4 };
+                if Y::NAME == "map_mvreg" || Y::NAME == "map_orswot" {
+                    c.n = 4; // two pending key removes whose contexts collide need four ops (seeds C08-6, C20-6)
+                }
                 c.label = format!("{} reset_remove with every grid clock, {:?}+merge n<={}", Y::NAME, Y::DISC, c.n);
                 job::<Y>(c, ResetRemoveCheck { actors: 3, max_counter: 2, compose: false })
             });
